@@ -32,7 +32,7 @@ def effectTable : List FnRow := [
   ⟨[], [11]⟩,  -- 18 astral.geocoder.database
   ⟨[], [15]⟩,  -- 19 astral.geocoder.group
   ⟨[], [15, 21]⟩,  -- 20 astral.geocoder.lookup
-  ⟨[], [15]⟩,  -- 21 astral.geocoder.lookup_in_group
+  ⟨[.unknownCall], [15]⟩,  -- 21 astral.geocoder.lookup_in_group  (call .partition on key)
   ⟨[], []⟩,  -- 22 astral.hours_to_time
   ⟨[], []⟩,  -- 23 astral.julian.<module>
   ⟨[], []⟩,  -- 24 astral.julian.day_fraction_to_time
@@ -105,16 +105,16 @@ def effectTable : List FnRow := [
   ⟨[], [28]⟩,  -- 91 astral.sidereal.gmst
   ⟨[], [91]⟩,  -- 92 astral.sidereal.lmst
   ⟨[], []⟩,  -- 93 astral.sun.<module>
-  ⟨[], [26, 31, 96, 106]⟩,  -- 94 astral.sun._midnight_utc
-  ⟨[], [26, 31, 96, 106]⟩,  -- 95 astral.sun._noon_utc
-  ⟨[], []⟩,  -- 96 astral.sun._utc_time_on
+  ⟨[], [26, 31, 106]⟩,  -- 94 astral.sun._midnight_utc
+  ⟨[], [26, 31, 106]⟩,  -- 95 astral.sun._noon_utc
+  ⟨[], [129]⟩,  -- 96 astral.sun._transit_on_date
   ⟨[], []⟩,  -- 97 astral.sun.adjust_to_horizon
   ⟨[], []⟩,  -- 98 astral.sun.adjust_to_obscuring_feature
   ⟨[], [88, 133]⟩,  -- 99 astral.sun.azimuth
   ⟨[], [128, 137]⟩,  -- 100 astral.sun.blue_hour
   ⟨[], [129, 137]⟩,  -- 101 astral.sun.dawn
   ⟨[], [126, 127, 137]⟩,  -- 102 astral.sun.daylight
-  ⟨[], [129, 137]⟩,  -- 103 astral.sun.dusk
+  ⟨[], [96, 137]⟩,  -- 103 astral.sun.dusk
   ⟨[], []⟩,  -- 104 astral.sun.eccentric_location_earth_orbit
   ⟨[], [88, 132]⟩,  -- 105 astral.sun.elevation
   ⟨[], [104, 107, 108, 131]⟩,  -- 106 astral.sun.eq_of_time
